@@ -30,6 +30,26 @@ def is_extent_formula(e, base=None):
     return None, None
 
 
+def cancel_offsets(p):
+    """(x + k) - k  ->  x   on pointers (`buf.add(off)` handed to a helper that subtracts `off` again)"""
+    p = strip_ptr(p)
+    if is_call(p, "sub") and len(p[2]) == 2:
+        inner = strip_ptr(p[2][0])
+        if is_call(inner, "add") and len(inner[2]) == 2 and canon(uncast(inner[2][1])) == canon(uncast(p[2][1])):
+            return strip_ptr(inner[2][0])
+    return p
+
+
+def _root(e):
+    while isinstance(e, tuple) and e and e[0] in ("ref", "deref"):
+        e = e[1]
+    return e
+
+
+def cancel_sum(e):
+    return e
+
+
 def cb_field(e, name):
     """e is <shared>.name read out of a (re-boxed) control block; returns the block expr"""
     e = uncast(e)
@@ -43,10 +63,17 @@ def run(facts):
                        "end-of-allocation invariant of unshared Vec-backed handles")
     n = 0
     for b in facts.fn_bodies():
-        sites = resolve_sites(facts, b, lambda view, only: judge_extent_sites(facts, view, only), keep_names=("offset_from", "rebuild_vec"),
+        # a helper that rebuilds a Vec from its own parameters is judged in the context of its callers: it must be inlined there
+        own = b.id.rsplit("::", 1)[-1]
+        sites = resolve_sites(facts, b, lambda view, only: judge_extent_sites(facts, view, only),
+                              keep_names=tuple(x for x in ("offset_from", "rebuild_vec", "get_vec_pos") if x != own),
                               is_entry=lambda fb: is_slot(facts, fb))
         cnt = {}
         for x in sites:
+            if x["ok"] and x.get("defer"):
+                okd, textd = decide_in_callers(facts, b, x["bi"], x["j"])
+                x["ok"] = okd
+                x["text"] = textd if not okd else x["text"] + "; " + textd
             if x.get("counts", True):
                 n += 1
             k0 = "%s|%s" % (b.id, x["keytail"])
@@ -60,6 +87,43 @@ def run(facts):
     res.floor("extent_sites", n, 6)
     promotable_end(res, facts)
     return res
+
+
+def decide_in_callers(facts, body, bi, j, max_depth=3):
+    """a Vec rebuilt from a helper's own parameters: judged in its direct callers (helper spliced in), and - where a caller only
+    hands its own parameters on - in that caller's callers, nearest first; a chain stops at the first caller that decides"""
+    from .inline import callers_of, inlined, keep_pred, sites_in
+    pred = keep_pred(("offset_from", "get_vec_pos"), (), atoms=False)
+    frontier = [(body.did, 1)]
+    seen = set()
+    decided = []
+    while frontier:
+        did, depth = frontier.pop(0)
+        cs = [c for c in callers_of(facts, did) if not facts.is_test(c)]
+        if not cs:
+            if did != body.did:
+                decided.append("%s (no callers)" % facts.by_did[did].id.rsplit("::", 1)[-1])
+            continue
+        for c in cs:
+            if c.did in seen or c.did == body.did:
+                continue
+            seen.add(c.did)
+            view = inlined(facts, c, depth=depth, pred=pred)
+            blocks = set(sites_in(view, body.did, bi))
+            if not blocks:
+                continue
+            for y in judge_extent_sites(facts, view, blocks):
+                blk = view.blocks[y["bi"]]
+                if blk.get("origin") != body.did or blk.get("orig_bb") != bi or y["j"] != j:
+                    continue
+                nm = c.id.rsplit("::", 1)[-1]
+                if not y["ok"]:
+                    return False, "in the context of %s: %s" % (nm, y["text"])
+                if y.get("defer") and depth < max_depth and not str(c.vis).startswith("Public"):
+                    frontier.append((c.did, depth + 1))
+                else:
+                    decided.append(nm)
+    return True, "decided at the callers: %s" % ", ".join(sorted(set(decided))[:8])
 
 
 def is_slot(facts, b):
@@ -126,9 +190,11 @@ def judge_extent_sites(facts, b, only_blocks=None):
         elif p == "alloc::vec::Vec::<T>::from_raw_parts":
             a = [canon(eb.operand(x, loc)) for x in t["args"]]
             B, L, C = strip_ptr(a[0]), a[1], a[2]
+            B, L, C = cancel_offsets(B), cancel_sum(L), cancel_sum(C)
             ok, how = False, ""
             buf, ln = is_extent_formula(C)
             ctx_dep = False
+            defer = False
             if buf is not None and buf == B and cb_field(B, "buf") is None:
                 # valid for an unshared Vec-backed handle only (its view ends where the allocation ends, A5); the buffer of a
                 # control block has its own recorded capacity. A bare parameter is whatever the callers pass: judged there too.
@@ -140,9 +206,33 @@ def judge_extent_sites(facts, b, only_blocks=None):
                 ok, how = True, "(buf, cap) of one control block"
             elif is_call(B, "sub") and isinstance(C, tuple) and C[0] == "bin" and C[1] == "Add" and B[2][1] in (C[2], C[3]) \
                     and isinstance(uncast(L), tuple) and uncast(L)[0] == "bin" and uncast(L)[1] == "Add" and B[2][1] in (uncast(L)[2], uncast(L)[3]):
-                ok, how = True, "ptr - off, len + off, cap + off with one off"
+                off_ = B[2][1]
+                base_ = strip_ptr(B[2][0])
+                other = C[3] if C[2] == off_ else C[2]
+                hb = base_[1] if (isinstance(base_, tuple) and base_[0] == "field" and base_[2] == "ptr") else None
+                # the vec position: read out of the same handle's data word (get_vec_pos(h), `h.data >> K`, a decoding helper over
+                # h.data) - A17 checks that those bits agree with the pointer
+                def _only_data(x):
+                    flds = [y for y in walk(x) if isinstance(y, tuple) and len(y) == 3 and y[0] == "field" and y[1] == hb]
+                    return bool(flds) and all(y[2] == "data" for y in flds)
+                is_pos = hb is not None and isinstance(off_, tuple) and (
+                    (off_[0] == "call" and "pos" in off_[1].rsplit("::", 1)[-1] and len(off_[2]) >= 1 and _root(off_[2][0]) == _root(hb))
+                    or _only_data(off_))
+                if hb is not None and other == ("field", hb, "cap") and is_pos:
+                    ok, how = True, "(h.ptr - pos, _, h.cap + pos) of one inline-Vec handle with pos = its vec position (allocation = cap + pos, A8c)"
+                elif all(isinstance(uncast(x), tuple) and uncast(x)[0] == "param" for x in (base_, off_, other)):
+                    # relative to the helper's own parameters: whatever the callers pass decides (judged in every calling context)
+                    ok, how = True, "ptr - off, len + off, cap + off with one off"
+                    defer = True
+                else:
+                    ok, how = False, ""
+            if not ok and not str(b.vis).startswith("Public") and b.kind in ("fn", "assoc_fn") and isinstance(C, tuple) and C[0] == "bin" and C[1] == "Add" \
+                    and all(isinstance(uncast(x), tuple) and uncast(x)[0] == "param" for x in (B, C[2], C[3])):
+                # an intermediate non-public helper that only hands its own parameters on: its callers decide
+                ok, how, defer = True, "rebuilt from the helper's own parameters (decided at its callers)", True
             emit(0, "from_raw_parts cap", ok, how if ok else "Vec rebuilt with capacity %s over %s: not the allocation's size (freeing it would use the wrong layout)" % (fmt_expr(C)[:80], fmt_expr(B)[:50]))
             out[-1]["ctx_dep"] = ctx_dep
+            out[-1]["defer"] = defer
             # the length of the rebuilt Vec: the handle's own bytes, counted from the start of the allocation
             Lu = uncast(L)
             okl, howl = False, ""
